@@ -18,6 +18,14 @@ func TestSweep(t *testing.T) {
 	rec := kit.NewRecorder(env, "sweep")
 	defer func() { rec.Flush(!t.Failed()) }()
 	maxK := env.Pick(3, 5)
+	// roots of more than 2^24 samples (a count held in a float32 or a 24-bit field would be off)
+	for _, sh := range [][2]int{{1, 1<<24 + 9}, {2, 1<<23 + 5}, {3, 5592407}} {
+		Oracle.One(t, env, rec, "sweep", &Case{T: "int8", C: sh[0], Huge: sh[1]})
+	}
+	if env.Thorough() {
+		Oracle.One(t, env, rec, "sweep", &Case{T: "int16", C: 2, Huge: 1<<24 + 3})
+		Oracle.One(t, env, rec, "sweep", &Case{T: "uint8", C: 1, Huge: 1<<25 + 1})
+	}
 	// channel counts around 256 and 65536
 	for _, C := range []int{255, 256, 257, 65535, 65536, 65537} {
 		for _, tn := range []string{"int8", "float64"} {
